@@ -538,6 +538,17 @@ class Interp:
         return [env]
 
     def st_If(self, st, env, rets, fn):
+        if getattr(self.domain, "split_boolops", False) and isinstance(st.test, ast.BoolOp) and len(st.test.values) >= 2:
+            # path-sensitive domains: `if A and B: S else: T` is `if A: (if B: S else: T) else: T` (and dually for `or`), so that the negation of a
+            # conjunction becomes two paths with conjunctive path conditions instead of one path without any
+            first = st.test.values[0]
+            rest = st.test.values[1] if len(st.test.values) == 2 else ast.BoolOp(op=st.test.op, values=st.test.values[1:])
+            inner = ast.copy_location(ast.If(test=rest, body=st.body, orelse=st.orelse), st)
+            if isinstance(st.test.op, ast.And):
+                outer = ast.If(test=first, body=[inner], orelse=st.orelse)
+            else:
+                outer = ast.If(test=first, body=st.body, orelse=[inner])
+            return self.st_If(ast.copy_location(outer, st), env, rets, fn)
         tv = self.eval(st.test, env, fn)
         t = self.domain.truth(self, tv)
         out: list[dict] = []
